@@ -44,9 +44,10 @@ def _w3c_date_to_pdf(string, attr_name):
         if groups['tz_hour']:
             assert groups['tz_hour'].startswith(('+', '-'))
             assert groups['tz_minute']
-            tz_hour = int(groups['tz_hour'])
+            tz_sign = groups['tz_hour'][0]
+            tz_hour = abs(int(groups['tz_hour']))
             tz_minute = int(groups['tz_minute'])
-            pdf_date += f"{tz_hour:+03d}'{tz_minute:02d}"
+            pdf_date += f"{tz_sign}{tz_hour:02d}'{tz_minute:02d}"
         else:
             pdf_date += 'Z'
     return f'D:{pdf_date}'
